@@ -814,6 +814,50 @@ def r14_auto_value_checked_before_use(idx, r):
                   "flags are indistinguishable in every stored flag set")
 
 
+def r15_fillers_orders_and_strict_text(idx, r):
+    """(a) dict-valued parameters are stored as one column per key, NaN where an object lacks the key; on reading exactly the NaN entries
+    are dropped - the filter is evaluated for an ordinary value, +inf, -inf and NaN.  (b) Flag.sortedFields IS the bit order the flag
+    serializer writes and remaps by: it sorts the name -> value table by value (registration order differs as soon as one flag has an
+    explicit value).  (c) text is stored as bytes by a STRICT conversion: an error handler that substitutes characters stores another string
+    than the one written instead of refusing it."""
+    from ..minieval import MiniEval
+    f = idx.func(DB + ".unpackSpecialData")
+    comp = [x for x in ast.walk(f.node) if isinstance(x, ast.DictComp) and x.generators and x.generators[0].ifs and "zip(keys" in norm(x.generators[0].iter)]
+    if len(comp) != 1:
+        raise AnchorMissing("unpackSpecialData: {key: value for key, value in zip(keys, d) if <filter>}")
+    g = comp[0].generators[0]
+    val = norm(g.target.elts[1])
+    inf = float("inf")
+
+    def hook(call, args):
+        d = dotted(call.func) or ""
+        if args is not None and len(args) == 1 and isinstance(args[0], float):
+            if d in ("np.isnan", "numpy.isnan", "math.isnan"):
+                return args[0] != args[0]
+            if d in ("np.isfinite", "numpy.isfinite", "math.isfinite"):
+                return args[0] == args[0] and args[0] not in (inf, -inf)
+            if d in ("np.isinf", "numpy.isinf", "math.isinf"):
+                return args[0] in (inf, -inf)
+        return None
+    got = []
+    for v in (1.5, inf, -inf, float("nan")):
+        ev = MiniEval(call_hook=hook)
+        got.append(all(ev._truth(ev._ev(c, {val: v})) for c in g.ifs))
+    r.require(got == [True, True, True, False], "dict-columns:only-the-NaN-filler-is-dropped", f, node=comp[0],
+              msg=f"entries kept for (1.5, +inf, -inf, NaN): {got}; only the NaN filler of a missing key may be dropped - an infinite value the user stored must come back")
+    sf = idx.method("armi.utils.flags.Flag", "sortedFields")
+    ret = next((x for x in walk_local(sf.node) if isinstance(x, ast.Return) and x.value is not None), None)
+    srt = [c for c in ast.walk(ret.value) if isinstance(c, ast.Call) and dotted(c.func) == "sorted"] if ret is not None else []
+    okk = bool(srt) and any(k.arg == "key" and ("[1]" in norm(k.value) or "_nameToValue" in norm(k.value) or "itemgetter(1)" in norm(k.value)) for c in srt for k in c.keywords)
+    r.require(okk, "sortedFields:sorted-by-value", sf, node=ret,
+              msg=f"`{norm(ret.value)[:70] if ret is not None else ''}` is not the name table sorted by value: the serializer writes this list as 'index = bit position', so with one explicitly numbered flag "
+                  "declared before lower ones the stored order map is wrong and flag sets change meaning on reading")
+    w = idx.method(DB + ".Database", "_writeParams")
+    lossy = [c for c in iter_calls(w.node) if any(isinstance(a, ast.Constant) and a.value in ("replace", "ignore", "xmlcharrefreplace", "backslashreplace", "namereplace", "surrogateescape") for a in list(c.args) + [k.value for k in c.keywords])]
+    r.require(not lossy, "_writeParams:strict-text-encoding", w, node=lossy[0] if lossy else None,
+              msg=f"`{norm(lossy[0])[:70] if lossy else ''}` substitutes characters it cannot encode: the string read back differs from the one written, where the property demands a refusal at write time")
+
+
 def run(idx, chk):
     chk.explanation = (
         "C05: pack/unpack are sibling implementations; their attrs key sets, strategy decision trees, None-sentinel tables, "
@@ -849,3 +893,5 @@ def run(idx, chk):
                  necessary="values are returned for the object they were written for, with the same unset positions")
     chk.run_rule("R05.14", "an automatically numbered flag gets a bit only after the taken values were skipped", lambda r: r14_auto_value_checked_before_use(idx, r), floor=1,
                  necessary="flag sets keep their meaning: no two flags share a bit")
+    chk.run_rule("R05.15", "only NaN fillers are dropped from dict columns; sortedFields is sorted by value; text is encoded strictly", lambda r: r15_fillers_orders_and_strict_text(idx, r), floor=3,
+                 necessary="values come back unchanged or are refused at write time; flag sets keep their meaning")
